@@ -113,7 +113,13 @@ def gen_steps(rng, obj, n, *, bad_rate=0.0, malformed_rate=0.0, setter_bias=1.0,
             if name in POINT_PROPS:
                 if r < malformed_rate:
                     st["arg"] = {"kind": "malformed_point", "n": rng.choice([2, 4])}
-                elif r < malformed_rate + 0.07 and hasattr(obj, "vertices"):
+                elif r < malformed_rate + 0.06:
+                    # a nudge: the current centroid plus a shift far below the shape's size
+                    # (but not zero) - what a relaxation loop assigns step after step
+                    st["arg"] = {"kind": "nudge", "d": rng.unit_vector(3),
+                                 "mag": 10 ** rng.uniform(-9, -3),
+                                 "as": rng.choice(["list", "array"])}
+                elif r < malformed_rate + 0.13 and hasattr(obj, "vertices"):
                     # "put the centroid where vertex k is now": the target is a *view* of the
                     # shape's own vertex array (legal; it changes while the setter runs)
                     st["arg"] = {"kind": "own_vertex", "k": rng.randrange(64)}
@@ -172,6 +178,20 @@ def resolve_arg(obj, st, world=None):
     if kind == "own_vertex":
         v = obj.vertices
         return v[arg["k"] % len(v)], None
+    if kind == "nudge":
+        try:
+            with warnings.catch_warnings():
+                warnings.simplefilter("ignore")
+                c = np.array(obj.centroid, dtype=float)
+        except Exception:  # noqa: BLE001 - unreadable in this state: nudge the vertex mean
+            c = anchor(obj)
+        d = np.array(arg["d"], float)
+        if c.shape != d.shape:
+            d = d[:c.shape[0]]
+        if type(obj).__name__ in ("Circle", "Ellipse") and len(d) == 3:
+            d[2] = 0.0
+        p = c + d * arg["mag"] * extent(obj)
+        return (p.tolist() if arg.get("as") == "list" else p), None
     if kind in ("point", "malformed_point"):
         if kind == "malformed_point":
             return [0.5] * arg["n"], None
